@@ -74,6 +74,37 @@ def generate(ctx):
     return cs
 
 
+def post_go(ctx, cases, obs):
+    """the distance plain `closest` prints (its own writer) is, text for text, the one `closest -n --table` prints for that pair"""
+    stage = [{"id": i, "op": "closest", "query": c["go"]["query"], "target": c["go"]["target"], "measure": c["measure"], "n": 0,
+              "table": False, "threads": 1} for i, c in enumerate(cases) if obs[c["id"]]["status"] == "ok"]
+    idx = [c for c in cases if obs[c["id"]]["status"] == "ok"]
+    res = cm.go_run(stage, ctx.log) if stage else {}
+    bad = []
+    for i, c in enumerate(idx):
+        table = {}
+        for line in cm.unb64(obs[c["id"]]["out"]).decode("latin1").split("\n")[1:]:
+            f = line.rsplit(",", 1)
+            if len(f) == 2:
+                table[f[0]] = f[1]                     # "query,target" -> distance text
+        o = res[i]
+        if o["status"] != "ok":
+            continue
+        probs = []
+        for line in cm.unb64(o["out"]).decode("latin1").split("\n")[1:]:
+            if not line:
+                continue
+            for key, dist in table.items():
+                if line.startswith(key + ","):
+                    got = line[len(key) + 1:].split(",")[0]
+                    if got != dist:
+                        probs.append("plain closest prints %s for the pair %s, closest --table prints %s" % (got, key, dist))
+        if probs:
+            c["sample"]["oracle_problems"] = probs[:3]
+            bad.append(c)
+    return bad
+
+
 def py_tn93_defined(q, t):
     """Prefilter only: is eq. (7) comfortably defined for this pair?  (selects which pairs get certified)"""
     q, t = q.upper(), t.upper()
